@@ -97,7 +97,7 @@ pub struct SimConfig {
 impl Default for SimConfig {
     fn default() -> Self {
         SimConfig {
-            max_steps: 1_000_000,
+            max_steps: 2_000_000,
             max_vtime_ns: 3_600_000_000_000,
             switch_permille: 300,
             step_cost_ns: 200,
@@ -312,6 +312,11 @@ impl Core {
         h = fnv(h, self.now);
         self.log_hash = h;
         self.expire();
+        if self.steps % 100_000 == 0 {
+            // did any link delivery happen in the last 100k scheduling points?
+            self.progress_window_ok = self.progress_events > self.progress_mark;
+            self.progress_mark = self.progress_events;
+        }
         if self.steps > self.cfg.max_steps || self.now > self.cfg.max_vtime_ns {
             self.verdict = Some(Verdict::Budget);
             self.dead = true;
@@ -1012,7 +1017,7 @@ where
             steps: s.steps,
         })
         .collect();
-    let _ = (c.progress_mark, c.progress_window_ok);
+
     Outcome {
         verdict: c.verdict.clone().unwrap_or(Verdict::Completed),
         steps: c.steps,
@@ -1025,6 +1030,6 @@ where
         threads,
         sched_tape: c.sched.consumed(),
         fault_tape: c.fault.consumed(),
-        progress_since_last_window: c.progress_events > 0,
+        progress_since_last_window: c.progress_window_ok || c.progress_events > c.progress_mark,
     }
 }
